@@ -458,6 +458,33 @@ def run_spans(ck):
         w = min((byid[i] for i in xv), key=size_of)
         ck.violation({"property": PID, "kind": "a stored OTLP span reads back with other events or another status than were pushed", "case": slim(w),
                       "read": w["read"], "replay": "harness spans --cases <file holding the 'case' object on one line> --out /dev/stdout"})
+    # the legacy JSON form of OTLP payloads (parseOTLPJson; the JS writer stored it): every stored span of the run, re-written in that form, must read
+    # back like its protobuf form (whose read-back the model and spec_ok judge), outside the three recorded divergences
+    jd = [c for c in cases if c.get("json_diff")]
+    jrows = sum(c.get("json_rows", 0) for c in cases)
+    ck.obligation("legacy JSON payload form (parseOTLPJson): each of %d stored OTLP spans with scalar attribute values, re-written as the JS writer stored it "
+                  "(base64 ids, decimal-string times and integers, numeric kind and status code, events), reads back with the same ids, parent, name, kind, "
+                  "times, attributes (other than the recomputed service names), events and status as its protobuf form" % jrows, not jd,
+                  "case ids: %s; %s" % ([c["id"] for c in jd[:10]], jd[0]["json_diff"][:400] if jd else ""))
+    if jd and not viol:
+        w = min(jd, key=size_of)
+        ck.violation({"property": PID, "kind": "a span stored in the legacy JSON payload form does not read back as the same span stored as protobuf",
+                      "case": slim(w), "difference": w["json_diff"], "replay": "harness spans --cases <file holding the 'case' object on one line> --out /dev/stdout"})
+    jk = {}
+    for c in cases:
+        for k in c.get("json_known") or []:
+            jk[k] = jk.get(k, 0) + 1
+    if jk:
+        if "otlp-json-legacy-divergences" in ck.known_findings():
+            ck.report_known("otlp-json-legacy-divergences", "observed on requests re-written in the legacy JSON payload form: %s" % jk)
+        else:
+            w = min((c for c in cases if c.get("json_known")), key=size_of)
+            ck.obligation("legacy JSON payload form: no divergence from the protobuf form", False, str(jk))
+            ck.violation({"property": PID, "kind": "legacy JSON payload form reads back differently (service names recomputed / repeated key loses its value / time clipped)",
+                          "case": slim(w), "observed": w.get("json_known")})
+    ck.extra["legacy_json_payload_rows_compared"] = jrows
+    ck.extra["legacy_json_payload_rows_skipped_non_scalar_values"] = sum(c.get("json_skipped", 0) for c in cases)
+    ck.extra["legacy_json_known_divergences_observed"] = jk
     ck.extra["otlp_spans_with_events_or_status"] = nextra
     ck.extra["otlp_payloads_compared_bytewise"] = notlp
     if cv:
@@ -598,7 +625,8 @@ def run(ck):
     ck.trusted += [
         "C06: the OTLP payload is concrete (SpansWireX.enc_spanx = proto.Marshal byte for byte on every stored payload of the run, events and status included; "
         "dec_spanx (enc_spanx s x) = (s, x) proved); UTF-8 validation of protobuf strings and span fields the generator never sets (links, trace_state, flags, dropped "
-        "counts, event dropped count) are not modelled; the legacy JSON form of OTLP payloads (parseOTLPJson, written by the JS writer only) is not modelled",
+        "counts, event dropped count) are not modelled; the legacy JSON form of OTLP payloads (parseOTLPJson, written by the JS writer only) is not modelled in Coq: "
+        "it is compared, span by span, with the read-back of the protobuf form outside Coq",
         "C06: the Zipkin payload is a JSON TOKEN STREAM (SpansJson: the write path's walk, the read path's parse, fields, kind, annotations are Gallina over tokens); "
         "the tokenizers themselves (bytes -> tokens: whitespace, escape decoding, number scanning, UTF-8) are the oracle: jx on every element text, fastjson on every "
         "stored payload, the two streams compared; strings are valid UTF-8 in the generator; an unpaired surrogate escape is the one known disagreement (finding zipkin-lone-surrogate)",
